@@ -1,0 +1,194 @@
+//go:build verif
+
+// Contracts for package gomavlib (comment-only; read by /verif/govc).
+// These are THREAD-LOCAL contracts: each speaks about the order and content of
+// the calls, sends, receives and closes performed by ONE function on every one
+// of its own control-flow paths, with every value received from a peer
+// arbitrary.  They say nothing about schedules, blocking or other goroutines.
+// Ghost log entries: calls listed under `ghostlog` (recorded, not executed),
+// "recv"/"send"/"close" on channels named after the variable or field that
+// holds them, "go", "select.default".
+
+package gomavlib
+
+//@ func (*Channel).write
+//@   requires ch != nil && ch.ctx != nil
+//@   ensures  [one-attempt] logLen() == 1
+//@   ensures  [own-queue-only] (logIs(0, "send", "chWrite") && logArg(0, 0) == what) || logIs(0, "recv", "ctx.Done") || logCallee(0, "select.default")
+//@   ensures  [never-blocks] blockingOps() == 0
+//@   canary   logIs(0, "send", "chWrite")
+//@   modifies ghost:log
+
+//@ func (*Channel).runReader
+//@   ghostlog (*gomavlib.Node).pushEvent, (*gomavlib.nodeStreamRequest).onEventFrame, (*frame.Reader).Read
+//@   requires ch != nil && ch.node != nil && ch.frameWriter != nil && ch.frameWriter.Reader != nil
+//@   ensures  [returns-only-fatal-error] err != nil && !dynIs(err, "frame.ReadError")
+//@   ensures  [open-first] logCallee(0, "(*gomavlib.Node).pushEvent") && dynIs(logArg(0, 1), "*gomavlib.EventChannelOpen") &&
+//@              logArg(0, 1).(*EventChannelOpen).Channel == ch
+//@   ensures  [error-is-reader-error] logLen() == 2 && logCallee(1, "(*frame.Reader).Read") && err == logRetErr(1)
+//@   loop 0 invariant logLen() >= 1 && logCallee(0, "(*gomavlib.Node).pushEvent") && dynIs(logArg(0, 1), "*gomavlib.EventChannelOpen") &&
+//@                    logArg(0, 1).(*EventChannelOpen).Channel == ch
+//@   loop 0 body-ensures [one-read-one-event] logLen() >= 2 && logLen() <= 3 && logCallee(0, "(*frame.Reader).Read") &&
+//@                    logCallee(logLen()-1, "(*gomavlib.Node).pushEvent") && logCount("(*gomavlib.Node).pushEvent") == 1
+//@   loop 0 body-ensures [parse-error-event] logRetErr(0) != nil ==> logLen() == 2 && dynIs(logRetErr(0), "frame.ReadError") &&
+//@                    dynIs(logArg(1, 1), "*gomavlib.EventParseError") &&
+//@                    logArg(1, 1).(*EventParseError).Channel == ch && logArg(1, 1).(*EventParseError).Error == logRetErr(0)
+//@   loop 0 body-ensures [frame-event] logRetErr(0) == nil ==> dynIs(logArg(logLen()-1, 1), "*gomavlib.EventFrame") &&
+//@                    logArg(logLen()-1, 1).(*EventFrame).Channel == ch &&
+//@                    logArg(logLen()-1, 1).(*EventFrame).Frame == logRetAny(0, 0).(frame.Frame)
+//@   loop 0 body-ensures [stream-request-hook-before-event] logLen() == 3 ==> logCallee(1, "(*gomavlib.nodeStreamRequest).onEventFrame")
+//@   modifies ghost:log
+
+//@ func (*Channel).runWriter
+//@   ghostlog (*streamwriter.Writer).Write, (*frame.Writer).Write
+//@   requires ch != nil && ch.streamWriter != nil && ch.frameWriter != nil && ch.frameWriter.Writer != nil
+//@   ensures  [stops-when-told-or-on-write-error] (err == nil && logIs(logLen()-1, "recv", "writerTerminate")) ||
+//@              (err != nil && logLen() >= 2 && logIs(logLen()-2, "recv", "chWrite") && err == logRetErr(logLen()-1))
+//@   loop 0 invariant true
+//@   loop 0 body-ensures [one-item-per-iteration] logIs(0, "recv", "chWrite") && logLen() <= 2
+//@   loop 0 body-ensures [message-to-stream-writer] logLen() == 2 && logCallee(1, "(*streamwriter.Writer).Write") ==>
+//@                    logArgIsPtr(1, 0, ch.streamWriter) && logArg(1, 1) == lastRecv("chWrite").(message.Message) && logRetErr(1) == nil
+//@   loop 0 body-ensures [frame-to-frame-writer] logLen() == 2 && logCallee(1, "(*frame.Writer).Write") ==>
+//@                    logArgIsPtr(1, 0, ch.frameWriter.Writer) && logArg(1, 1) == lastRecv("chWrite").(frame.Frame) && logRetErr(1) == nil
+//@   loop 0 body-ensures [nothing-else-written] logLen() == 2 ==> logCallee(1, "(*streamwriter.Writer).Write") || logCallee(1, "(*frame.Writer).Write")
+//@   modifies ghost:log
+
+//@ func (*Channel).run
+//@   ghostlog (*gomavlib.Node).pushEvent, (*gomavlib.Node).closeChannel
+//@   let PE = logFind("(*gomavlib.Node).pushEvent", "", 0)
+//@   let R0 = logFind("recv", "", 0)
+//@   requires ch != nil && ch.node != nil && ch.rwc != nil && ch.ctx != nil && ch.done != nil
+//@   ensures  [exactly-one-close-event] logCount("(*gomavlib.Node).pushEvent") == 1 && dynIs(logArg(PE, 1), "*gomavlib.EventChannelClose") &&
+//@              logArg(PE, 1).(*EventChannelClose).Channel == ch && logArgIsPtr(PE, 0, ch.node)
+//@   ensures  [reader-and-writer-joined-first] logFind("recv", "readerDone", 0) >= 0 && logFind("recv", "readerDone", 0) < PE &&
+//@              logFind("recv", "writerDone", 0) >= 0 && logFind("recv", "writerDone", 0) < PE
+//@   ensures  [transport-closed-first] logCount("io.Closer.Close") == 1 && logFind("io.Closer.Close", "", 0) < PE
+//@   ensures  [cause-reported] (logIs(R0, "recv", "readerDone") || logIs(R0, "recv", "writerDone")) ==>
+//@              logArg(PE, 1).(*EventChannelClose).Error == logArg(R0, 0).(error)
+//@   ensures  [closed-by-node-has-no-cause] logIs(R0, "recv", "ctx.Done") ==> logArg(PE, 1).(*EventChannelClose).Error == nil
+//@   ensures  [close-event-is-last] logCallee(PE+1, "(*gomavlib.Node).closeChannel") && logArgIsPtr(PE+1, 1, ch) &&
+//@              logCallee(PE+2, "sync.WaitGroup.Done") && logIs(PE+3, "close", "done") && logLen() == PE+4
+//@   canary   !logIs(R0, "recv", "writerDone")
+//@   canary   !logIs(R0, "recv", "readerDone")
+//@   canary   !logIs(R0, "recv", "ctx.Done")
+//@   modifies ghost:log
+
+//@ func (*Node).pushEvent
+//@   requires n != nil
+//@   ensures  [one-attempt] logLen() == 1 && ((logIs(0, "send", "chEvent") && logArg(0, 0) == any(evt)) || logIs(0, "recv", "terminate"))
+//@   modifies ghost:log
+
+//@ func (*Node).closeChannel
+//@   requires n != nil
+//@   ensures  logLen() == 1 && (logIs(0, "send", "chCloseChannel") || logIs(0, "recv", "terminate"))
+//@   modifies ghost:log
+
+//@ func (*Node).newChannel
+//@   ghostlog (*gomavlib.Channel).close
+//@   requires n != nil
+//@   ensures  (logLen() == 1 && logIs(0, "send", "chNewChannel")) ||
+//@            (logLen() == 2 && logIs(0, "recv", "terminate") && logCallee(1, "(*gomavlib.Channel).close") && logArgIsPtr(1, 0, ch))
+//@   modifies ghost:log
+
+// ---------------------------------------------------------------- reconnecting endpoints (C14)
+
+//@ func (*endpointClient).connect returns (conn, err)
+//@   ghostlog (*net.Dialer).DialContext, timednetconn.New
+//@   requires e != nil && e.node != nil && e.conf != nil
+//@   ensures  [own-timeout-for-every-attempt] logCallee(0, "context.WithTimeout") && logArgDuration(0, 1) == e.node.ReadTimeout &&
+//@              logCallee(1, "(*net.Dialer).DialContext") && logCallee(2, "call:func-value")
+//@   ensures  [dial-error-returned] logRetErr(1) != nil ==> conn == nil && err == logRetErr(1) && logLen() == 3
+//@   ensures  [idle-and-write-timeouts-armed] logRetErr(1) == nil ==> err == nil && logLen() == 4 && logCallee(3, "timednetconn.New") &&
+//@              logArgDuration(3, 0) == e.node.IdleTimeout && logArgDuration(3, 1) == e.node.WriteTimeout
+//@   modifies ghost:log
+
+//@ func (*endpointClient).provide returns (label, conn, err)
+//@   ghostlog (*gomavlib.endpointClient).connect, (*gomavlib.endpointClient).label
+//@   requires e != nil && e.ctx != nil
+//@   ensures  [channel-or-terminated] (err == nil) || (err == errTerminated && conn == nil)
+//@   ensures  [delay-before-every-reconnect] old(e.first) ==> logCallee(0, "time.After") && logArgDuration(0, 0) == reconnectPeriod &&
+//@              (logIs(1, "recv", "time.After") || logIs(1, "recv", "ctx.Done"))
+//@   ensures  [first-connect-immediately] !old(e.first) ==> logCallee(0, "(*gomavlib.endpointClient).connect") && e.first
+//@   loop 0 invariant e.first
+//@   loop 0 body-ensures [failed-attempt-then-delay] logLen() == 3 && logCallee(0, "(*gomavlib.endpointClient).connect") && logRetErr(0) != nil &&
+//@                    logCallee(1, "time.After") && logArgDuration(1, 0) == reconnectPeriod && logIs(2, "recv", "time.After")
+//@   modifies e.first, ghost:log
+
+//@ func (*endpointSerial).provide returns (label, conn, err)
+//@   ghostlog (*gomavlib.endpointSerial).connect
+//@   requires e != nil && e.ctx != nil
+//@   ensures  [channel-or-terminated] (err == nil) || (err == errTerminated && conn == nil)
+//@   ensures  [delay-before-every-reconnect] old(e.first) ==> logCallee(0, "time.After") && logArgDuration(0, 0) == reconnectPeriod &&
+//@              (logIs(1, "recv", "time.After") || logIs(1, "recv", "ctx.Done"))
+//@   ensures  [first-connect-immediately] !old(e.first) ==> logCallee(0, "(*gomavlib.endpointSerial).connect") && e.first
+//@   loop 0 invariant e.first
+//@   loop 0 body-ensures [failed-attempt-then-delay] logLen() == 3 && logCallee(0, "(*gomavlib.endpointSerial).connect") && logRetErr(0) != nil &&
+//@                    logCallee(1, "time.After") && logArgDuration(1, 0) == reconnectPeriod && logIs(2, "recv", "time.After")
+//@   modifies e.first, ghost:log
+
+//@ func (*endpointCustom).provide returns (label, conn, err)
+//@   requires e != nil
+//@   ensures  err == nil && conn != nil
+//@   modifies nothing
+
+//@ func (*endpointServer).provide returns (label, conn, err)
+//@   ghostlog net.Listener.Accept, timednetconn.New, fmt.Sprintf
+//@   requires e != nil && e.node != nil && e.listener != nil && e.conf != nil
+//@   ensures  [channel-or-terminated] (err == nil) || (err == errTerminated && conn == nil)
+//@   ensures  [accept-error-waits-for-termination] logRetErr(0) != nil ==> logLen() == 2 && logIs(1, "recv", "terminate") && err == errTerminated
+//@   ensures  [every-peer-gets-a-timed-connection] logRetErr(0) == nil ==> err == nil && logCallee(logLen()-1, "timednetconn.New") &&
+//@              logArgDuration(logLen()-1, 0) == e.node.IdleTimeout && logArgDuration(logLen()-1, 1) == e.node.WriteTimeout
+//@   modifies ghost:log
+
+//@ func (*Channel).initialize
+//@   requires ch != nil
+//@   ensures  err == nil ==> ch.done != nil && ch.chWrite != nil && ch.ctx != nil
+//@   modifies *ch
+//@   trusted
+//@   assumes  Channel.initialize allocates the channel's queues; its plumbing of node options into reader/writer (C06/C09) is not verified here
+
+//@ func (*channelProvider).run
+//@   ghostlog (*gomavlib.Node).newChannel, gomavlib.Endpoint.oneChannelAtAtime
+//@   requires cp != nil && cp.node != nil && cp.endpoint != nil && specEndpointReady(cp.endpoint)
+//@   ensures  [stops-only-on-termination] logCallee(logLen()-1, "sync.WaitGroup.Done")
+//@   loop 0 invariant specEndpointReady(cp.endpoint)
+//@   loop 0 body-ensures [one-channel-per-provide] logCount("(*gomavlib.Node).newChannel") == 1
+//@   loop 0 body-ensures [one-at-a-time-waits-for-close] logRetBool(logFind("gomavlib.Endpoint.oneChannelAtAtime", "", 0)) ==> logIs(logLen()-1, "recv", "done")
+//@   loop 0 modifies *cp.endpoint
+//@   modifies ghost:log, *cp.endpoint
+
+//@ func (*endpointUDPBroadcast).provide returns (label, conn, err)
+//@   requires e != nil
+//@   ensures  (err == nil) || (err == errTerminated && conn == nil)
+//@   modifies *e
+//@   trusted
+//@   assumes  the broadcast endpoint provides one channel and then waits for termination; its provide() is not verified here
+
+// ---------------------------------------------------------------- node loop: write fan-out (C11)
+
+//@ func (*Node).run
+//@   ghostlog (*gomavlib.Channel).write, (*gomavlib.Channel).start, (*gomavlib.Channel).close, (*gomavlib.channelProvider).close, (*gomavlib.nodeHeartbeat).close, (*gomavlib.nodeStreamRequest).close
+//@   requires n != nil && n.done != nil && n.chEvent != nil && n.channels != nil
+//@   ensures  [shutdown-last-steps] logIs(logLen()-1, "close", "done") && logIs(logLen()-2, "close", "chEvent") && logCallee(logLen()-3, "sync.WaitGroup.Wait")
+//@   loop 0 invariant n.channels != nil
+//@   loop 0 modifies *n.channels
+//@   loop 0 body-ensures [to-member-only] logIs(0, "recv", "chWriteTo") && old(mapHasPtr(n.channels, lastRecv("chWriteTo").(writeToReq).ch)) ==>
+//@                    logLen() == 2 && logCallee(1, "(*gomavlib.Channel).write") &&
+//@                    logArgIsPtr(1, 0, lastRecv("chWriteTo").(writeToReq).ch) && logArg(1, 1) == lastRecv("chWriteTo").(writeToReq).what
+//@   loop 0 body-ensures [foreign-or-closed-channel-ignored] logIs(0, "recv", "chWriteTo") && !old(mapHasPtr(n.channels, lastRecv("chWriteTo").(writeToReq).ch)) ==> logLen() == 1
+//@   loop 0 body-ensures [new-channel-registered-and-started] logIs(0, "recv", "chNewChannel") ==> logLen() == 2 &&
+//@                    mapHasPtr(n.channels, lastRecv("chNewChannel").(*Channel)) && logCallee(1, "(*gomavlib.Channel).start") && logArgIsPtr(1, 0, lastRecv("chNewChannel").(*Channel))
+//@   loop 0 body-ensures [closed-channel-forgotten] logIs(0, "recv", "chCloseChannel") ==> logLen() == 1 && !mapHasPtr(n.channels, lastRecv("chCloseChannel").(*Channel))
+//@   loop 0 body-ensures [no-write-without-request] logCount("(*gomavlib.Channel).write") >= 1 ==>
+//@                    logIs(0, "recv", "chWriteTo") || logCallee(0, "range.next")
+//@   loop 1 invariant n.channels != nil
+//@   loop 1 body-ensures [all-each-visited-channel-exactly-once] logLen() == 2 && logCallee(0, "range.next") && logCallee(1, "(*gomavlib.Channel).write") &&
+//@                    logArgIsPtr(1, 0, logArg(0, 1)) && logArg(1, 1) == lastRecv("chWriteAll")
+//@   loop 2 invariant n.channels != nil
+//@   loop 2 body-ensures [except-every-other-channel-once] logCallee(0, "range.next") && logArg(0, 1).(*Channel) != lastRecv("chWriteExcept").(writeExceptReq).except ==>
+//@                    logLen() == 2 && logCallee(1, "(*gomavlib.Channel).write") && logArgIsPtr(1, 0, logArg(0, 1)) &&
+//@                    logArg(1, 1) == lastRecv("chWriteExcept").(writeExceptReq).what
+//@   loop 2 body-ensures [except-excluded-channel-never] logCallee(0, "range.next") && logArg(0, 1).(*Channel) == lastRecv("chWriteExcept").(writeExceptReq).except ==> logLen() == 1
+//@   loop 3 invariant true
+//@   loop 4 invariant true
+//@   modifies ghost:log, *n.channels
